@@ -170,8 +170,10 @@ def runners(run):
         if len(t) >= 4 and t[0] == "runner":
             n += 1
             if t[3] != "ok":
+                msg = t[4] if len(t) > 4 else ""
+                broken = "scenario broken" in msg or "cannot build runner" in msg
                 run.violation("runner:%s:%s" % (t[1], t[2]), {"line": l, "how": "build/bin/c07 -mode runners"},
-                              "bundled %s runner, scenario %s: %s" % (t[1], t[2], t[4] if len(t) > 4 else ""))
+                              "bundled %s runner, scenario %s: %s" % (t[1], t[2], msg), broken)
     if rc != 0 or n == 0:
         run.violation("runners-failed", {"rc": rc, "stderr": err[-2000:]}, "runner smoke family failed to run", True)
     return n
@@ -224,15 +226,15 @@ def run(run):
             n = shards if big else 1
             for i in range(n):
                 jobs.append((["-mode", "dfs", "-k", str(k), "-m", str(m), "-shard", str(i), "-shards", str(n)],
-                             (xfile, 4 if run.tier == "quick" else 400) if (big and i == 0) else None))
+                             (xfile, 4 if run.tier == "quick" else 60) if (big and i == 0) else None))
     if run.tier == "thorough":
-        for (k, m) in ((4, 2), (2, 4)):
+        for (k, m) in ((4, 2), (2, 4), (3, 4), (4, 3)):
             for i in range(shards):
                 jobs.append((["-mode", "dfs", "-k", str(k), "-m", str(m), "-shard", str(i), "-shards", str(shards)], None))
-    nrand = 400 if run.tier == "quick" else 40000
+    nrand = 400 if run.tier == "quick" else 200000
     rshards = 4 if run.tier == "quick" else 16
     for i in range(rshards):
-        jobs.append((["-mode", "random", "-k", "5", "-m", "5", "-n", str(nrand // rshards), "-seed", str(run.seed * 1000 + i)], None))
+        jobs.append((["-mode", "random", "-k", "6", "-m", "6", "-n", str(nrand // rshards), "-seed", str(run.seed * 1000 + i)], None))
     with cf.ThreadPoolExecutor(max_workers=min(C.NPROC, 16)) as ex:
         futs = [ex.submit(run_family, acc, a, fixed, e) for a, e in jobs]
         for f in futs:
@@ -263,11 +265,12 @@ def run(run):
         "rule": "corpus (%d schedules) + EVERY maximal interleaving of the critical sections of k Stop() callers with m consecutive "
                 "Run cycles for all 1<=k<=%d, 1<=m<=%d%s (satisfied waits taken eagerly, callers enter in index order; each "
                 "execution is a fresh set of real goroutines driven through the verif yield hooks) + %d random executions with "
-                "k,m<=5 (SplitMix64 seed); distinct = distinct (k,m,label sequence), counted exactly per driver process; "
+                "k,m<=6 (SplitMix64 seed); distinct = distinct (k,m,label sequence), counted exactly per driver process; "
                 "every execution has >=1 Stop and >=1 Run, so none is trivial" % (
-                    n_corpus, K, M, " and (4,2),(2,4)" if run.tier == "thorough" else "", nrand),
+                    n_corpus, K, M, " and (4,2),(2,4),(3,4),(4,3)" if run.tier == "thorough" else "", nrand),
         "samples": samples,
-        "exhaustive": True,
+        "exhaustive": False,
+        "exhaustive_up_to": "k<=%d callers x m<=%d cycles (all interleavings of the critical sections)" % (K, M),
         "model_compared": "step true (candidate repair)" if fixed else "step false (code as it is)",
         "mode_detected_on_witness": wline,
         "labels_replayed": st.get("labels", 0),
